@@ -187,6 +187,35 @@ def run(tier, seed):
                         ck.fail('a proper prefix of a well-formed PEL was decoded by the CLI%s' % (' under -O' if opt else ''), rp, 'cli_prefix_decoded')
                 if dt > 20:
                     ck.fail('CLI did not terminate promptly', rp, 'cli_slow')
+        # ---- the same through every DIRECTORY mode: a directory that holds many malformed files at once (prefixes cut inside every section,
+        # corrupted and random files, a PEL without any SRC, one whose primary SRC id is damaged, an empty file) ends every mode with
+        # status 0 or 1, without a traceback, under python and python -O
+        import clirun
+        import pelbuild
+        for rnd in range(3 if thorough else 1):
+            dfiles = [('hdrs_only', pelbuild.pel([pelbuild.UH()], eid=0x0C050001)), ('ud_only', pelbuild.pel([pelbuild.UH(), pelbuild.UD(b'text')], eid=0x0C050002)),
+                      ('ps_damaged', pelbuild.pel([pelbuild.UH(), pelbuild.SRC()], eid=0x0C050003).replace(b'PS', b'PX', 1)),
+                      ('good', pelbuild.pel([pelbuild.UH(), pelbuild.SRC()], eid=0x0C050004)), ('empty', b'')]
+            pool = [x for x in inputs if x[0].startswith('prefix') and len(x[1]) > 72] + [x for x in inputs if x[0] in ('corrupt', 'random')]
+            for i, (k, b, _) in enumerate(rng.sample(pool, min(len(pool), 14))):
+                dfiles.append(('%02d_%s' % (i, k.replace(' ', '_')[:12]), b))
+            d = clirun.make_dir(dfiles, base=tmp)
+            od = clirun.make_dir([], base=tmp)
+            ex = os.path.join(tmp, 'exclude_%d.txt' % rnd)
+            open(ex, 'w').write('BD8D0000\n')
+            for argv in (['-a'], ['-l'], ['-n'], ['-a', '-x'], ['-j', '-o', od], ['--plid', '0x50000001'], ['--src', 'B'], ['--src-exclude', ex],
+                         ['--bmc-id', '1'], ['-i', '0x0C050004'], ['-l', '-H', '-O'], ['-n', '-S', 'Critical']):
+                for opt in (False, True):
+                    so, se, rc = clirun.run_sub(['-p', d, '-E'] + argv if argv[0] not in ('-l', '-n') or len(argv) == 1 else ['-p', d] + argv, optimise=opt)
+                    ck.case(key=('cli-dir', rnd, tuple(argv[:1]), opt))
+                    ck.count('cli directory mode %s%s rc=%d' % (argv[0], ' -O' if opt else '', rc))
+                    rp = {'op': 'cli-dir', 'optimise': opt, 'argv': argv[:1] + (['<...>'] if len(argv) > 1 else []), 'files': [(n, b.hex()) for n, b in dfiles], 'rc': rc, 'stderr': se[-300:], 'stdout': so[:200]}
+                    if rc == -999:
+                        ck.fail('a directory mode did not terminate on a directory of malformed files', rp, 'cli_dir_hang')
+                    elif rc not in (0, 1):
+                        ck.fail('a directory of malformed files ends a directory mode with an exit status other than 0/1', rp, 'cli_dir_exit')
+                    if 'Traceback' in se:
+                        ck.fail('a directory of malformed files ends a directory mode with a traceback', rp, 'cli_dir_traceback')
     finally:
         env.uninstall()
         shutil.rmtree(tmp, ignore_errors=True)
